@@ -119,6 +119,10 @@ func JSONGetNaturalLanguageField(val *fastjson.Value, prop string) NaturalLangua
 			ob.Visit(func(key []byte, v *fastjson.Value) {
 				l := LangRefValue{}
 				l.Ref = LangRef(key)
+				if l.Ref == undLangRef {
+					// the writer stores untagged values of a language map under "und"
+					l.Ref = NilLangRef
+				}
 				l.Value = append(Content{}, v.GetStringBytes()...)
 				if l.Ref != NilLangRef || len(l.Value) > 0 {
 					n = append(n, l)
